@@ -382,6 +382,33 @@ type c12Watch struct {
 	idle   func() bool
 	ids    map[string]bool
 	last   []string // frame summary of the last dump (for the witness)
+	// quick: the full classification (3 dumps) has already been done often enough for this
+	// class of case in this run; one parked+drained dump ends the wait as "presumed-hang",
+	// which is counted but never reported as a violation.
+	quick bool
+}
+
+// c12Budget limits how many full hang classifications (>= 300 ms each) a run spends per
+// violation signature; the verdict is unaffected (the signature is already recorded).
+type c12Budget struct {
+	mu   sync.Mutex
+	used map[string]int
+	max  int
+}
+
+func (b *c12Budget) exhausted(key string) bool {
+	b.mu.Lock()
+	defer b.mu.Unlock()
+	return b.used[key] >= b.max
+}
+
+func (b *c12Budget) spend(key string) {
+	b.mu.Lock()
+	if b.used == nil {
+		b.used = map[string]int{}
+	}
+	b.used[key]++
+	b.mu.Unlock()
 }
 
 var c12CreatedRe = regexp.MustCompile(`created by \S+ in goroutine (\d+)`)
@@ -460,7 +487,8 @@ func (w *c12Watch) returned() bool {
 }
 
 // until waits for cond. Results: "ok" (cond true), "returned" (the relay call returned
-// while cond was still false), "hang" (see type comment), "watchdog".
+// while cond was still false), "hang" (see type comment), "presumed-hang" (quick mode),
+// "watchdog".
 func (w *c12Watch) until(cond func() bool) string {
 	t0 := time.Now()
 	same, prev := 0, ""
@@ -494,6 +522,9 @@ func (w *c12Watch) until(cond func() bool) string {
 				same = 1
 			}
 			prev = sig
+			if w.quick {
+				return "presumed-hang"
+			}
 			if same >= 3 {
 				return "hang"
 			}
